@@ -858,6 +858,15 @@ class ReadParquetPyarrowFS(ReadParquet):
                 stats = [stats[i] for i in order]
             return tuple(stats[i]["num_rows"] for i in self._partitions)
 
+    def __reduce__(self):
+        # The dataset info cache holds pyarrow FileInfo objects and dataset handles
+        # that cannot be pickled. It is only a cache: whoever unpickles the
+        # expression rebuilds it on demand.
+        cls, operands = super().__reduce__()
+        operands = list(operands)
+        operands[type(self)._parameters.index("_dataset_info_cache")] = None
+        return cls, tuple(operands)
+
     @cached_property
     def _dataset_info(self):
         if rv := self.operand("_dataset_info_cache"):
